@@ -219,10 +219,7 @@ Definition parse_double (c : cfg) (bs : list byte) : dres :=
       | [] => exponent0 end in
   if negb (in_i64 m2) then DUB "number.c:mantissa"
   else if (digit_count <=? 15) && fast_path_ok m2 exponent then DOk (fast_path m2 exponent neg)
-  else if e then
-    (* cleaned copy, silently limited to 511 bytes *)
-    DOk (strtod_model (firstn 511 (filter (fun ch => negb (is_us ch)) bs)))
-  else if 512 <=? Z.of_nat (List.length bs) then DOk S754_nan
+  else if e then DOk (strtod_model (filter (fun ch => negb (is_us ch)) bs))   (* cleaned copy *)
   else DOk (strtod_model bs).
 
 (* ------------------------------------------------------------------ edn_read_number *)
